@@ -53,6 +53,22 @@ TRUSTED_EXTRA = [
 ]
 
 
+class _Retrying:
+    """The driver binary is shared with other builders and is briefly absent while lake relinks it."""
+
+    def __init__(self, driver):
+        self.driver = driver
+
+    def batch(self, lines):
+        for attempt in range(60):
+            try:
+                return self.driver.batch(lines)
+            except (FileNotFoundError, PermissionError, OSError):
+                if attempt == 59:
+                    raise
+                _time.sleep(1.0)
+
+
 # ----------------------------------------------------------------------------------------------
 # scope values
 # ----------------------------------------------------------------------------------------------
@@ -935,7 +951,14 @@ def _violation(what, kind, seq, mode):
 def explore(ctx, n_scale=1.0, monitors_only=False):
     rng = random.Random(ctx.seed * 7919 + 20)
     quick = ctx.tier == "quick"
-    driver = None if monitors_only else ctx.driver
+    driver = None if monitors_only or ctx.driver is None else _Retrying(ctx.driver)
+    if driver is not None:
+        class _C:
+            pass
+        c2 = _C()
+        c2.__dict__.update(ctx.__dict__)
+        c2.driver = driver
+        ctx = c2
     n_seq = int((90 if quick else 1200) * n_scale)
     n_thr = int((30 if quick else 300) * n_scale)
     n_fun = int((400 if quick else 6000) * n_scale)
